@@ -302,6 +302,21 @@ class Splicer:
                 g.raw("/*<+*/" + text + "/*+>*/")
             k += 1
 
+    def text21(self, lo, hi):
+        """source text of toks[lo:hi) with the R21 substitutions inside it applied (for rules that re-render a statement)"""
+        out, k = "", lo
+        r21 = getattr(self, "r21", {})
+        starts = {a: (b, t) for (a, b), t in r21.items() if lo <= a and b <= hi}
+        while k < hi:
+            if k in starts:
+                b, t = starts[k]
+                out += t
+                k = b
+            else:
+                out += self.toks[k].text
+                k += 1
+        return out
+
     # ------------------------------------------------------------------ generic rules
     def attrs(self, lo, head_lo):
         """R2/R3 on the attribute prefix of an item; returns False if the item is cfg'd out"""
@@ -780,6 +795,54 @@ class Splicer:
             for l_ in fs.loops:
                 if l_.kw == "foreach" and l_.ordinal > fe_n and id(l_) not in foreach_as_loop:
                     raise Undecided("loop anchor lost: %s foreach#%d [demotable fn=%s]" % (key, l_.ordinal, key))
+        # R21: `RECV.as_ref()` / `RECV.as_mut()` on a bucket -> `bucket_ref(&RECV, &TBL)` / `bucket_mut(&RECV, &mut TBL)`
+        #      (hb_ref / hb_mut for a raw hashbrown bucket). A bucket is a raw pointer into one table; the rule names that
+        #      table (given per function in the .spec file) so that the dereference reads / writes the table's abstract
+        #      state. That the bucket really designates an occupied slot of TBL is an obligation of the wrapper, not assumed.
+        self.r21 = {}
+        if fs.deref:
+            kind_, tbl_ = fs.deref
+            s = [k for k in range(body_lo, body_hi) if toks[k].kind not in ("ws", "comment", "doc")]
+            for n in range(2, len(s) - 3):
+                if not (toks[s[n]].text == "." and toks[s[n + 1]].text in ("as_ref", "as_mut")
+                        and toks[s[n + 2]].text == "(" and toks[s[n + 3]].text == ")"):
+                    continue
+                # receiver: the postfix chain that ends just before the `.`
+                m = n - 1
+                while True:
+                    tt = toks[s[m]]
+                    if tt.text == ")":
+                        op_ = rs.match_open(toks, s[m]) if hasattr(rs, "match_open") else None
+                        if op_ is None:
+                            depth_, x_ = 0, s[m]
+                            while True:
+                                if toks[x_].kind == "punct" and toks[x_].text in rs.CLOSE:
+                                    depth_ += 1
+                                elif toks[x_].kind == "punct" and toks[x_].text in rs.OPEN:
+                                    depth_ -= 1
+                                    if depth_ == 0:
+                                        break
+                                x_ -= 1
+                            op_ = x_
+                        m = s.index(op_) - 1          # the callee name before `(`
+                        continue
+                    if tt.kind == "ident" and m >= 1 and toks[s[m - 1]].text in (".", "::") :
+                        m -= 2
+                        continue
+                    break
+                if toks[s[m]].kind != "ident":
+                    raise Undecided("R21: unsupported receiver in %s [demotable fn=%s]" % (key, key))
+                recv_lo, hi_ = s[m], s[n + 3] + 1
+                recv = rs.text_of(toks, recv_lo, s[n - 1] + 1).strip()
+                mut_ = toks[s[n + 1]].text == "as_mut"
+                fnm_ = {"griddle": "bucket_", "hb": "hb_"}[kind_] + ("mut" if mut_ else "ref")
+                newt = "%s(&%s, &%s%s)" % (fnm_, recv, "mut " if mut_ else "", tbl_)
+                before = rs.text_of(toks, recv_lo, hi_)
+                self.r21[(recv_lo, hi_)] = newt
+                self.sub(recv_lo, hi_, newt, "R21")
+                g.meta["r13_r14"].append({"fn": key, "rule": "R21", "before": before, "after": newt})
+            if not self.r21:
+                g.meta["skipped_anchors"].append({"fn": key, "kind": "rule", "ordinal": 21, "expected": "a bucket dereference `.as_ref()` / `.as_mut()`", "found": None})
         # R13
         if "R13" in fs.rules:
             s = [k for k in range(body_lo, body_hi) if toks[k].kind not in ("ws", "comment", "doc")]
@@ -803,7 +866,7 @@ class Splicer:
                             elif toks[x].kind == "punct" and toks[x].text in rs.CLOSE:
                                 depth -= 1
                             x += 1
-                        expr = rs.text_of(toks, eq + 1, x).strip()
+                        expr = self.text21(eq + 1, x).strip()
                         before = rs.text_of(toks, s[n], x + 1)
                         new = "let __t = %s; let %s = &%s__t.0; let %s = &%s__t.1;" % (
                             expr, m.group(2), m.group(1) or "", m2.group(2), m2.group(1) or "")
@@ -847,7 +910,7 @@ class Splicer:
                                 if m_:
                                     lets += "let %s = &%s__t.%d; " % (m_.group(2), m_.group(1) or "", i_)
                             before = rs.text_of(toks, s[n], x)
-                            expr = rs.text_of(toks, a0, x).rstrip()
+                            expr = self.text21(a0, x).rstrip()
                             new = "Some(__t) => { %s%s }" % (lets, expr)
                             self.sub(s[n], x, new, "R13")
                             g.meta["r13_r14"].append({"fn": key, "rule": "R13", "before": before, "after": new})
